@@ -265,20 +265,20 @@ func traceDecode(w *Writer, id string, src0 []byte, fl decFlags) (ncalls int, ac
 		}
 		// rendering for real: a Renderer whose rasteriser samples the paints (raster/vec over an RGBA image) - same
 		// outcome, no panic, whatever the paints are
-		// (only graphics whose numbers are tame - finite, at most 2^20 in magnitude, a viewBox at least 2^-10 across - or
+		// (only graphics whose numbers are tame - finite, at most 4096 in magnitude, a viewBox at least 1/4 across - or
 		// the directed non-finite ones: for other magnitudes the fixed-point rasteriser of x/image/vector loops over up
 		// to 2^31 rows, which is the same defect as the known finding but would stall the harness)
 		tame := true
 		for ci := range rec.Calls {
 			for _, f := range rec.Calls[ci].F {
 				v := float64(f.float())
-				if v != v || v > 1<<20 || v < -(1<<20) {
+				if v != v || v > 4096 || v < -4096 {
 					tame = false
 				}
 			}
 			if rec.Calls[ci].Op == "Reset" && len(rec.Calls[ci].F) == 4 {
 				fs := rec.Calls[ci].F
-				if !(fs[2].float()-fs[0].float() >= 1.0/1024) || !(fs[3].float()-fs[1].float() >= 1.0/1024) {
+				if !(fs[2].float()-fs[0].float() >= 0.25) || !(fs[3].float()-fs[1].float() >= 0.25) {
 					tame = false
 				}
 			}
@@ -299,7 +299,8 @@ func traceDecode(w *Writer, id string, src0 []byte, fl decFlags) (ncalls int, ac
 			})
 			ee.VecDst = intp(oz.ok())
 			if oz.hang {
-				ee.Panic = 1
+				// the other face of the same defect (known finding K1): reported on this route's own channel
+				ee.VecPanic = "golang.org/x/image/vector:did not return within the 20 s watchdog"
 			}
 			if oz.panicv != nil {
 				// reported on its own (not through the general panic flag), with the place it came from
